@@ -142,6 +142,13 @@ func DiC(c *TC)        { call("DiC", c) }
 func DiD(d *TD)        { call("DiD", d) }
 func DiCe(c *TC) error { return asErr(call("DiCe", c)[0]) }
 
+// ring pieces (cycle rejections with distinct function ids)
+func DrAB(b *TB) *TA { return call("DrAB", b)[0].Interface().(*TA) } // A needs B
+func DrBC(c *TC) *TB { return call("DrBC", c)[0].Interface().(*TB) } // B needs C
+func DrCA(a *TA) *TC { return call("DrCA", a)[0].Interface().(*TC) } // C needs A
+func DB0() *TB       { return call("DB0")[0].Interface().(*TB) }
+func DGb(b *TB) *TA  { return call("DGb", b)[0].Interface().(*TA) } // group member that needs B
+
 func init() {
 	decl("DA", DA, F("", "", "A"))
 	decl("DA2", DA2, F("", "", "A"))
@@ -179,6 +186,11 @@ func init() {
 	decl("DiC", DiC, F("", "C", ""))
 	decl("DiD", DiD, F("", "D", ""))
 	decl("DiCe", DiCe, F("", "C", "error"))
+	decl("DrAB", DrAB, F("", "B", "A"))
+	decl("DrBC", DrBC, F("", "C", "B"))
+	decl("DrCA", DrCA, F("", "A", "C"))
+	decl("DB0", DB0, F("", "", "B"))
+	decl("DGb", DGb, F("", "B", "A", Group("g")))
 }
 
 // D returns (a copy of) the spec of a pool function, optionally modified.
